@@ -40,8 +40,11 @@ def object_is_boolean(series: pd.Series, state: dict) -> bool:
 @Boolean.register_transformer(Object, pd.Series)
 def object_to_boolean(series: pd.Series, state: dict) -> pd.Series:
     if series.hasnans:
-        # astype("boolean") understands None / NaN / NA only
-        return series.mask(series.isna(), pandas_na_value).astype(hasnan_bool_name)
+        # astype("boolean") understands None / NaN / NA only, and only genuine bools: the guard also
+        # accepts values that are equal to True / False (1, 0.0, Decimal(1) ...), as astype(bool) does below
+        values = series.mask(series.isna(), pandas_na_value)
+        values = values.map(lambda v: v if v is pandas_na_value else bool(v))
+        return values.astype(hasnan_bool_name)
     return series.astype(bool)
 
 
